@@ -707,7 +707,7 @@ def shrink(case):
 def plan(tier):
   if tier == 'quick':
     return {'batches': 16, 'timeout': 900, 'histories': 8, 'wall_budget_s': 300}
-  return {'batches': 480, 'timeout': 2400, 'histories': 20, 'wall_budget_s': 3300}
+  return {'batches': 480, 'timeout': 2400, 'histories': 20, 'wall_budget_s': 1500}
 
 
 def run_batch(seed, batch, tier, scratch):
